@@ -15,6 +15,10 @@ Bind: spec -> code: EVERY maximal behaviour of the state graph is replayed throu
       (last_error recorded -> raise, else return the connection) is evaluated and compared with the spec's.
       code -> spec: seeded random scripted handshakes (longer, replies split into chunks) are recorded and
       validated by TLC against spec/Trace_Handshake.tla with the invariants on.
+      reactors: the close-before-READY behaviour of the real asyncio / twisted connection classes (real sockets, real
+      factory) and of the real eventlet / gevent close() is observed (harness/replay/reactor_close.py) and must be one
+      of the close contracts of the model that keep the statement (CloseSteps); a real close() that sets the event
+      without recording last_error is reported per reactor.
 """
 import copy
 import os
@@ -137,30 +141,45 @@ def run(ctx):
         raise tlc.MachineryError("the early-set variant of the model does not violate FactoryReturnsOnlyAfterReady")
     ctx.note("race_witness", "EarlySet model violates FactoryReturnsOnlyAfterReady as required")
 
-    # ---- peer closes the socket before READY, with the close() contract of asyncio / eventlet / gevent / twisted
-    # (error_all_requests; connected_event.set() - last_error is NOT recorded).  TLC finds the statement violated on
-    # the model of that contract; the counterexample is executed on a connection with exactly that close().
-    # The real AsyncioConnection shows it over a socketpair: findings/C47_peer_close_during_handshake_reported_ready.py
-    cconsts = dict(wconsts, CloseKinds={"set_only"})
-    ccfg = tlc.write_cfg(os.path.join(ctx.scratch, "hs_close.cfg"), constants=cconsts,
-                         invariants=["FactoryReturnsOnlyAfterReady"], deadlock=False)
-    cres = tlc.check_model("Handshake", ccfg, ctx.scratch, timeout=600)
-    if cres.invariant == "FactoryReturnsOnlyAfterReady":
-        tr = [st for _, st in cres.trace()]
-        c0 = tr[0]["cfg"]
-        ccfg_py = {"ver": c0["ver"], "auth": str(c0["auth"]), "comp": str(c0["comp"]), "local": set(c0["local"])}
-        replies = [hs.to_msg(st["act"]["m"]) for st in tr[1:] if st["act"]["name"] == "Reply"]
-        run = hs.execute(ccfg_py, lambda i, o: replies[i] if i < len(replies) else None, probe=False)
-        ctx.evaluations += 1
-        if run["factory"] == "ready":
-            ctx.violation("the peer closes the socket before READY (reactor close() that does not record last_error: asyncio, "
-                          "eventlet, gevent, twisted): Connection.factory returns the closed connection as ready; replies %s"
-                          % ([m["k"] for m in replies],),
-                          replay={"cfg": dict(ccfg_py, local=sorted(ccfg_py["local"])), "replies": replies, "probe": False,
-                                  "expect_factory_error": True},
-                          signature="reactor-close:last-error-not-recorded:factory-returns-closed-connection")
-    else:
-        ctx.note("close_contract_set_only", "model of asyncio-style close() no longer violates the statement")
+    # ---- the connection is closed before READY: what do the REAL reactors do?  (harness/replay/reactor_close.py runs
+    # the real AsyncioConnection / TwistedConnection through the real Connection.factory over real sockets, peer EOF and
+    # the reactor's own close(); eventlet / gevent: the real unbound close() on a stand-in.)  The verdict comes from
+    # those observations only: a reactor whose real close() sets connected_event without recording last_error makes
+    # the real factory hand out the closed connection.  The TLC run of that contract ("set_only") is the explanation.
+    from harness.replay import reactor_close as rc
+    probes = rc.probe_all()
+    found, offenders = set(), []
+    summary = {}
+    for reactor, modes in sorted(probes.items()):
+        for mode, obs in sorted(modes.items()):
+            if "skipped" in obs or "error" in obs:
+                summary["%s/%s" % (reactor, mode)] = obs.get("skipped") or ("inconclusive: " + obs["error"])[:300]
+                continue
+            summary["%s/%s" % (reactor, mode)] = "%s; factory %s%s" % (
+                obs["contract"], obs["factory"], (" " + obs["factory_exc"]) if obs.get("factory_exc") else "")
+            found.add(obs["contract"])
+            if obs["contract"] == "set_only" and obs["factory"] == "returned":
+                offenders.append((reactor, mode, obs))
+    ctx.note("real_reactor_close_probes", summary)
+    ctx.evaluations += len(summary)
+    if offenders:
+        cconsts = dict(wconsts, CloseKinds={"set_only"})
+        ccfg = tlc.write_cfg(os.path.join(ctx.scratch, "hs_close.cfg"), constants=cconsts,
+                             invariants=["FactoryReturnsOnlyAfterReady"], deadlock=False)
+        cres = tlc.check_model("Handshake", ccfg, ctx.scratch, timeout=600)
+        explanation = [dict(st["act"]["m"]) for _, st in cres.trace()][1:] if cres.invariant else None
+        for reactor in sorted(set(r for r, _, _ in offenders)):
+            obs = {m: o for r, m, o in offenders if r == reactor}
+            ctx.violation("%s reactor: closed before READY (%s), the real close() sets connected_event without recording "
+                          "last_error and the real Connection.factory returns the closed connection as ready: %s"
+                          % (reactor, ", ".join(sorted(obs)), obs),
+                          replay={"reactor": reactor, "observed": obs, "model_counterexample_set_only": explanation},
+                          signature="reactor-close:%s:last-error-not-recorded:factory-returns-closed-connection" % reactor)
+    # contracts replayed on the simulated connection: asyncore (record_set) and libev (no_set) from their source (neither
+    # can be imported here) - the probed reactors must be among them, otherwise the model lacks a contract
+    unknown = found - {"record_set", "no_set", "set_only", "defunct"}
+    if unknown:
+        raise tlc.MachineryError("real reactor shows a close contract the model does not have: %s" % unknown)
     finding_violations = ctx.violations
 
     # ---- spec -> code: every maximal behaviour
@@ -267,6 +286,15 @@ def replay(ctx, obj):
         for e in obj["events"]:
             print(e)
         return
+    if "reactor" in obj:
+        from harness.replay import reactor_close as rc
+        now = rc.probe_all().get(obj["reactor"], {})
+        for mode, obs in sorted(now.items()):
+            print(obj["reactor"], mode, obs)
+        if any(o.get("contract") == "set_only" and o.get("factory") == "returned" for o in now.values()):
+            ctx.violation("replayed: the real %s close() still leaves last_error unset while setting connected_event"
+                          % obj["reactor"], replay=obj)
+        return
     cfg = dict(obj["cfg"], local=set(obj["cfg"]["local"]))
     replies = obj["replies"]
     run = hs.execute(cfg, lambda i, o: replies[i] if i < len(replies) else None, probe=obj.get("probe", False))
@@ -277,8 +305,6 @@ def replay(ctx, obj):
     print("factory-side decision at the instant connected_event was set:", run.get("wakes"))
     if run["probe"]:
         print("after probe:", run["probe"])
-    if obj.get("expect_factory_error") and run["factory"] == "ready":
-        ctx.violation("replayed: factory still returns the connection although the handshake never completed", replay=obj)
     if obj.get("divergence"):
         print("expected (spec):", obj["divergence"]["diff"])
         d = obj["divergence"]["diff"]
